@@ -61,6 +61,7 @@ func compileLimit(src string, opts, limit int) (*regexp2.Regexp, error) {
 // results (error class or observation).
 type limRes struct {
 	find, boolean, str string
+	all, repl          string
 	alloc              int64
 	panicked           string
 }
@@ -90,6 +91,17 @@ func callUnder(src string, opts, limit int, runes []rune) (res limRes, re *regex
 			} else {
 				res.str = mon.ObsAll(m)
 			}
+			// drivers that reuse one runner for many scans
+			if a, e := re.FindAllStringIndex(string(runes), -1); e != nil {
+				res.all = "error:" + mon.ErrClass(e)
+			} else {
+				res.all = fmt.Sprint(a)
+			}
+			if rp, e := re.Replace(string(runes), "<$&>", -1, -1); e != nil {
+				res.repl = "error:" + mon.ErrClass(e)
+			} else {
+				res.repl = rp
+			}
 		}
 	})
 	if p != nil {
@@ -109,7 +121,7 @@ func limitLaws(src string, opts int, runes []rune, quick bool, st func(string)) 
 	if base.panicked != "" {
 		return "with the limit disabled: " + base.panicked, "", 0, 0
 	}
-	for _, v := range []string{base.find, base.boolean, base.str} {
+	for _, v := range []string{base.find, base.boolean, base.str, base.all, base.repl} {
 		if strings.HasPrefix(v, "error:") {
 			return "", "unlimited-run-" + v, 0, 0
 		}
@@ -125,7 +137,7 @@ func limitLaws(src string, opts int, runes []rune, quick bool, st func(string)) 
 			return false, false, fmt.Sprintf("limit %d: %s", L, res.panicked)
 		}
 		success = true
-		for _, pr := range [][3]string{{"FindRunesMatch", res.find, base.find}, {"MatchRunes", res.boolean, base.boolean}, {"FindStringMatch", res.str, base.str}} {
+		for _, pr := range [][3]string{{"FindRunesMatch", res.find, base.find}, {"MatchRunes", res.boolean, base.boolean}, {"FindStringMatch", res.str, base.str}, {"FindAllStringIndex", res.all, base.all}, {"Replace", res.repl, base.repl}} {
 			switch {
 			case pr[1] == pr[2]:
 			case pr[1] == "error:stacklimit":
